@@ -25,6 +25,7 @@ import (
 	"strconv"
 	"strings"
 	"sync"
+	"syscall"
 	"testing"
 	"time"
 
@@ -655,18 +656,37 @@ type Watchdog struct {
 	cur   any
 	subj  string
 	since time.Time
+	cpu0  time.Duration
 }
 
+// processCPU is the CPU time (user + system) this process has consumed so far.
+func processCPU() time.Duration {
+	var ru syscall.Rusage
+	if syscall.Getrusage(syscall.RUSAGE_SELF, &ru) != nil {
+		return 0
+	}
+	return time.Duration(ru.Utime.Nano() + ru.Stime.Nano())
+}
+
+// NewWatchdog watches the call announced by Enter. A call that does not terminate burns CPU; a call that
+// is merely not being scheduled on a loaded machine does not. So an overrun is reported when the process
+// has consumed d of CPU time since Enter without the call returning (the test goroutine is blocked in the
+// call, so the CPU time is the call's), or – for a call that blocks without computing – when ten times d
+// of wall-clock time have passed. Wall-clock time alone is never a verdict within 10*d.
 func NewWatchdog(s *Sub, d time.Duration) *Watchdog {
 	w := &Watchdog{s: s}
 	go func() {
 		for {
 			time.Sleep(d / 10)
 			w.mu.Lock()
-			cur, subj, since := w.cur, w.subj, w.since
+			cur, subj, since, cpu0 := w.cur, w.subj, w.since, w.cpu0
 			w.mu.Unlock()
-			if cur != nil && time.Since(since) > d {
-				s.Report(cur, []Finding{{Subject: subj, Kind: "hang", Msg: fmt.Sprintf("call did not return within %v", d)}})
+			if cur == nil {
+				continue
+			}
+			wall, cpu := time.Since(since), processCPU()-cpu0
+			if cpu > d || wall > 10*d {
+				s.Report(cur, []Finding{{Subject: subj, Kind: "hang", Msg: fmt.Sprintf("call did not return after %v of CPU time (%v wall clock; budget %v CPU or %v wall clock)", cpu.Round(time.Millisecond), wall.Round(time.Millisecond), d, 10*d)}})
 				s.flush()
 				os.Exit(1)
 			}
@@ -677,7 +697,7 @@ func NewWatchdog(s *Sub, d time.Duration) *Watchdog {
 
 func (w *Watchdog) Enter(subject string, c any) {
 	w.mu.Lock()
-	w.cur, w.subj, w.since = c, subject, time.Now()
+	w.cur, w.subj, w.since, w.cpu0 = c, subject, time.Now(), processCPU()
 	w.mu.Unlock()
 }
 
@@ -691,14 +711,22 @@ func (w *Watchdog) Leave() {
 // Used only where non-termination is what the property is about.
 func WithTimeout(d time.Duration, fn func()) (finished bool) {
 	done := make(chan struct{})
+	cpu0, t0 := processCPU(), time.Now()
 	go func() {
 		defer func() { recover(); close(done) }()
 		fn()
 	}()
-	select {
-	case <-done:
-		return true
-	case <-time.After(d):
-		return false
+	// as for the Watchdog: d of CPU time, or 10*d of wall-clock time; a stall on a loaded machine is not a verdict
+	tick := time.NewTicker(d / 20)
+	defer tick.Stop()
+	for {
+		select {
+		case <-done:
+			return true
+		case <-tick.C:
+			if processCPU()-cpu0 > d || time.Since(t0) > 10*d {
+				return false
+			}
+		}
 	}
 }
